@@ -270,6 +270,22 @@ def check(chk):
     chk.rule('C02.date', 'Date computes its day number by floor division of the epoch seconds (shared with C34)')
     chk.borrow('C34', {'C34.datefmt': 'C02.date'}, 'a datetime before 1970 with a time of day is encoded as the following day')
 
+    # vector elements: Cassandra writes the elements of a vector without a length prefix exactly when the element type has a fixed value length
+    # (AbstractType.valueLengthIfFixed in Cassandra 5.0: boolean 1, int 4, float 4, bigint 8, double 8, timestamp 8, uuid 16, timeuuid 16 - `time`, `date`,
+    # smallint, tinyint ... are variable there and get an unsigned-vint length per element); the driver mirrors that with serial_size()
+    chk.rule('C02.fixed', 'serial_size() is defined for exactly the types Cassandra treats as fixed length in a vector, with Cassandra\'s sizes')
+    FIXED = {'UUIDType': 16, 'BooleanType': 1, 'FloatType': 4, 'DoubleType': 8, 'LongType': 8, 'Int32Type': 4, 'DateType': 8, 'TimeUUIDType': 16}
+    declared = {}
+    for cn_, c_ in mod.classes():
+        if '.' in cn_ or cn_ in ('_CassandraType', 'VectorType'):
+            continue
+        for fn_ in c_.body:
+            if isinstance(fn_, ast.FunctionDef) and fn_.name == 'serial_size':
+                rets_ = [r for r in body_walk(fn_) if isinstance(r, ast.Return) and r.value is not None]
+                declared[cn_] = rets_[0].value.value if len(rets_) == 1 and isinstance(rets_[0].value, ast.Constant) else '?'
+    chk.judge(declared == FIXED, 'C02.fixed', mod.cls('VectorType'), 'fixed-length element types: %s' % sorted(FIXED.items()),
+              'the set of types with a serial_size() is %s, Cassandra\'s fixed-length types are %s: a vector over %s is written / read without (or with) the per-element length '
+              'prefix that Cassandra uses' % (sorted(declared.items()), sorted(FIXED.items()), sorted(set(declared) ^ set(FIXED)) or 'a resized type'))
     # timestamp: the instant of a datetime is taken in UTC (utctimetuple converts an aware datetime); timetuple() - wall-clock fields - only for a
     # value that has no utctimetuple (a date), i.e. inside the AttributeError arm
     chk.rule('C02.instant', 'DateType.serialize: epoch seconds from calendar.timegm(v.utctimetuple()); timegm(v.timetuple()) only in the AttributeError arm (dates)')
